@@ -157,7 +157,7 @@ A_ELEMS = 'element headers of mapped pages and their key bytes are stub views of
 
 PROPS['C07'] = dict(
     level='other',
-    units=['pagenode', 'cursor'],
+    units=['pagenode', 'cursor', 'bucketops'],
     explanation='A write transaction reads a MIXTURE of untouched mapped pages and modified in-memory nodes. Proved on the real bodies, for all node contents: '
                 'PageNode::{leaf, len, index_page, index, val} satisfy ONE contract stated over the node view (len, leaf, key(i), child(i)) whichever representation is behind it '
                 '(representation independence: the Page and the Node arm answer by the same specification, incl. the binary-search slot-before rule); Node::insert_data / delete are '
